@@ -91,7 +91,7 @@ structure Dom where
   ubx : Rat
   lby : Rat
   uby : Rat
-deriving Repr, BEq
+deriving Repr, BEq, DecidableEq
 
 /-- conversion `int(q)` of an in-range double: truncation towards zero -/
 def truncInt (q : Rat) : Int := if q < 0 then -((-q).floor) else q.floor
